@@ -210,7 +210,7 @@ theorem pollRecvResponse_ok (S : Src σ) (H : ReqRecv.Hdr) (st : St σ) :
       simp only
       cases H.head enc <;> first | (intro _; rfl) | exact connErr_ok _ _ _
     | _ => exact connErr_ok _ _ _
-  | none => exact connErr_ok _ _ _
+  | none => intro _; rfl
   | pending => intro _; rfl
   | _ => exact fsErr_ok { st with src := s' } _
 
@@ -685,6 +685,16 @@ theorem stepHead_finFirst (cfg : Cfg) (cell : Option Nat) (r : Req) (s' : FSt) (
        .ans (.res (.errStream CODE_H3_REQUEST_INCOMPLETE))) := by
   unfold stepHead
   simp [hs, H3.ReqRecv.pollHead, H3.ReqRecv.pollResolve, load, h, unload]
+
+/-- client head poll: the response stream ended before any HEADERS: the response is missing, an
+    error of this request; nothing is sent against the stream, the handle stays -/
+theorem stepHead_finFirst_client (cfg : Cfg) (cell : Option Nat) (r : Req) (s' : FSt) (hs : cfg.role = .client)
+    (h : fsSrc.pollNext r.rx.src = (.none, s')) :
+    stepHead cfg cell r =
+      ({ r with rx := unload { r.rx with src := s' }, gone := false }, cell,
+       .ans (.res (.errStream CODE_H3_MESSAGE_ERROR))) := by
+  unfold stepHead
+  simp [hs, H3.ReqRecv.pollHead, H3.ReqRecv.pollRecvResponse, load, h, unload]
 
 /-- head poll: HEADERS arrived, the section is over the limit — client -/
 theorem stepHead_tooBig_client (cfg : Cfg) (cell : Option Nat) (r : Req) (enc : Bytes) (s' : FSt)
